@@ -79,6 +79,12 @@ def run(model: Model, rep: Report) -> None:
             binds[(dotted(c.func) or "")[5:]] = unparse(c.args[0])
     ps = h.params
     r2.check(len(ps) >= 4 and binds.get("do_Tw") == ps[1] and binds.get("do_Tc") == ps[2], site(h), h.qualname, '": first operand is the word spacing, second the character spacing', why=f"bindings {binds} for parameters {ps[1:]}")
+    r13 = rep.rule("C05-R13", "WRITESET", "the composite operators ' and \" change the text state only through the operators they are defined by (Tw, Tc, T*, TJ): what \" sets stays in force afterwards (9.4.3)", 2)
+    for op in ("'", '"'):
+        hh = H(op)
+        direct = [n for n in walk_no_nested(hh.node) if isinstance(n, (ast.Attribute, ast.Subscript)) and isinstance(n.ctx, (ast.Store, ast.Del)) and unparse(n).startswith("self.textstate")]
+        saved = [n for n in walk_no_nested(hh.node) if isinstance(n, ast.Attribute) and isinstance(n.ctx, ast.Load) and unparse(n) in ("self.textstate.wordspace", "self.textstate.charspace", "self.textstate.leading") ]
+        r13.check(not direct and not saved, site(hh, (direct + saved)[0]) if (direct + saved) else site(hh), hh.qualname, f"{op}: no direct read-back or store of self.textstate.* (only do_Tw / do_Tc / do_T_a / do_TJ touch it)", why=f"{[unparse(x) for x in direct + saved][:3]}: the spacing set by the operator is saved and put back, or overwritten - `aw ac (s) \"` is defined as `aw Tw ac Tc (s) '`, so aw/ac must still apply to the next text-showing operator")
     h = H("Tj")
     tj_ok = any(isinstance(c, ast.Call) and (dotted(c.func) or "") == "self.do_TJ" and len(c.args) == 1 and isinstance(c.args[0], ast.List) and len(c.args[0].elts) == 1 and unparse(c.args[0].elts[0]) == h.params[1] for c in walk_no_nested(h.node))
     r2.check(tj_ok, site(h), h.qualname, "Tj s == TJ [s]", why="do_Tj does not delegate to do_TJ([s])")
@@ -151,24 +157,7 @@ def run(model: Model, rep: Report) -> None:
 
     # ---------------------------------------------------------------- R4
     r4 = rep.rule("C05-R4", "COPYFIELDS", "state copies used by q/Q and text showing are complete and do not alias the live state", 6)
-    for cname in ("PDFTextState", "PDFGraphicState"):
-        ci = model.cls(PI + cname)
-        init = model.func(PI + cname + ".__init__")
-        created: Set[str] = set(self_fields_written(init))
-        for c in walk_no_nested(init.node):
-            if isinstance(c, ast.Call) and isinstance(c.func, ast.Attribute) and isinstance(c.func.value, ast.Name) and c.func.value.id == "self":
-                m2 = model.lookup_method(ci.qualname, c.func.attr)
-                if m2 is not None:
-                    created |= set(self_fields_written(m2))
-        cp = model.func(PI + cname + ".copy")
-        copied = {}
-        for n in walk_no_nested(cp.node):
-            if isinstance(n, ast.Assign) and len(n.targets) == 1 and isinstance(n.targets[0], ast.Attribute) and isinstance(n.targets[0].value, ast.Name) and n.targets[0].value.id != "self":
-                copied[n.targets[0].attr] = unparse(n.value)
-        # fields via constructor call arguments would also count; today: attribute-by-attribute
-        missing = sorted(f for f in created if copied.get(f) != f"self.{f}")
-        fresh = any(isinstance(n, ast.Call) and (dotted(n.func) or "") in (cname, "self.__class__", "type(self)") for n in walk_no_nested(cp.node))
-        r4.check(not missing and fresh, site(cp), cp.qualname, f"{cname}.copy transfers every field __init__ creates: {sorted(created)}", why=f"not copied (or copied from something else): {missing}; fresh object: {fresh}")
+    state_copy_instances(model, r4, ("PDFTextState", "PDFGraphicState"))
     gcs = model.func(INTERP + ".get_current_state")
     ret = [n for n in walk_no_nested(gcs.node) if isinstance(n, ast.Return)]
     parts = [unparse(e) for e in ret[0].value.elts] if ret and isinstance(ret[0].value, ast.Tuple) else []
@@ -196,15 +185,7 @@ def run(model: Model, rep: Report) -> None:
     _operand_safety(model, rep, spec)
     # ---------------------------------------------------------------- R8
     # ---------------------------------------------------------------- R11: every content (page or form) starts from the initial state
-    r11 = rep.rule("C05-R11", "WRITESET", "render_contents: resources, then a fresh state (empty stacks, the given CTM also on the device, new text and graphics state, empty path), then execution of all streams", 2)
-    rc = model.func(PI + "PDFPageInterpreter.render_contents")
-    calls_rc = ["".join(unparse(s_.value).split()) for s_ in rc.node.body if isinstance(s_, ast.Expr) and isinstance(s_.value, ast.Call) and (dotted(s_.value.func) or "").startswith("self.")]  # type: ignore[attr-defined]
-    r11.check(calls_rc == ["self.init_resources(resources)", "self.init_state(ctm)", "self.execute(list_value(streams))"], site(rc), rc.qualname, "init_resources(resources); init_state(ctm); execute(list_value(streams))", why=f"{calls_rc}")
-    ist = model.func(PI + "PDFPageInterpreter.init_state")
-    ws = {k: "".join(unparse(v[0].value).split()) if isinstance(v[0], (ast.Assign, ast.AnnAssign)) and getattr(v[0], "value", None) is not None else "?" for k, v in self_fields_written(ist).items()}
-    want_ws = {"gstack": "[]", "ctm": "ctm", "textstate": "PDFTextState()", "graphicstate": "PDFGraphicState()", "curpath": "[]", "argstack": "[]"}
-    bad_ws = {k: ws.get(k) for k, v in want_ws.items() if ws.get(k) != v}
-    r11.check(not bad_ws and "self.device.set_ctm(self.ctm)" in "".join(unparse(ist.node).split()), site(ist), ist.qualname, "init_state: gstack = [], ctm = ctm (also handed to the device), fresh PDFTextState / PDFGraphicState, curpath = [], argstack = []", why=f"differs: {bad_ws}: state of the previous page or of the invoking content would leak into this one")
+    fresh_state_rule(model, rep, "C05-R11")
     ir5 = model.func(PI + "PDFPageInterpreter.init_resources")
     v5 = [unparse(n.value) for n in walk_no_nested(ir5.node) if isinstance(n, (ast.Assign, ast.AnnAssign)) and unparse(n.targets[0] if isinstance(n, ast.Assign) else n.target) == "self.csmap"]
     r12 = rep.rule("C05-R12", "ALIAS", "a form XObject's colour-space names stay in the form: every interpreter works on its own copy of the predefined colour-space table", 1)
@@ -230,6 +211,46 @@ def run(model: Model, rep: Report) -> None:
     bad_w2 = w2 - {"fp", "istream"}
     bad_c2 = {c for c in calls2 if c.endswith(".seek") or c.endswith("reset") or c.startswith("self._parse") or c.endswith("flush")}
     r8.check(not bad_w2 and not bad_c2, site(ff), ff.qualname, "PDFContentParser.fillfp (switching to the next stream) writes only {fp, istream}: the lexical state and a pending token are carried over", why=f"writes {sorted(bad_w2)} calls {sorted(bad_c2)}: a token that is still open at the end of one stream (a number, a name, a keyword without trailing white space) would be dropped or cut at the stream boundary")
+
+
+def state_copy_instances(model: Model, rule, cnames) -> None:
+    """<State>.copy() creates a fresh object and transfers every field that __init__ (and the methods it calls) creates.
+    Accepted spellings: attribute-by-attribute assignment, or a loop `for a in (<literal names>): setattr(obj, a, getattr(self, a))`."""
+    for cname in cnames:
+        ci = model.cls(PI + cname)
+        init = model.func(PI + cname + ".__init__")
+        created: Set[str] = set(self_fields_written(init))
+        for c in walk_no_nested(init.node):
+            if isinstance(c, ast.Call) and isinstance(c.func, ast.Attribute) and isinstance(c.func.value, ast.Name) and c.func.value.id == "self":
+                m2 = model.lookup_method(ci.qualname, c.func.attr)
+                if m2 is not None:
+                    created |= set(self_fields_written(m2))
+        cp = model.func(PI + cname + ".copy")
+        copied = {}
+        for n in walk_no_nested(cp.node):
+            if isinstance(n, ast.Assign) and len(n.targets) == 1 and isinstance(n.targets[0], ast.Attribute) and isinstance(n.targets[0].value, ast.Name) and n.targets[0].value.id != "self":
+                copied[n.targets[0].attr] = unparse(n.value)
+            if isinstance(n, ast.For) and isinstance(n.target, ast.Name) and isinstance(n.iter, (ast.Tuple, ast.List)) and all(isinstance(e, ast.Constant) and isinstance(e.value, str) for e in n.iter.elts):
+                v = n.target.id
+                for c in walk_no_nested(n):
+                    if isinstance(c, ast.Call) and isinstance(c.func, ast.Name) and c.func.id == "setattr" and len(c.args) == 3 and unparse(c.args[1]) == v and "".join(unparse(c.args[2]).split()) == f"getattr(self,{v})" and isinstance(c.args[0], ast.Name) and c.args[0].id != "self":
+                        for e in n.iter.elts:
+                            copied[e.value] = f"self.{e.value}"
+        missing = sorted(f for f in created if copied.get(f) != f"self.{f}")
+        fresh = any(isinstance(n, ast.Call) and (dotted(n.func) or "") in (cname, "self.__class__", "type(self)") for n in walk_no_nested(cp.node))
+        rule.check(not missing and fresh, site(cp), cp.qualname, f"{cname}.copy transfers every field __init__ creates: {sorted(created)}", why=f"not copied (or copied from something else): {missing}; fresh object: {fresh}: what q saved is not what Q restores")
+
+
+def fresh_state_rule(model: Model, rep: Report, rid: str) -> None:
+    r11 = rep.rule(rid, "WRITESET", "render_contents: resources, then a fresh state (empty stacks, the given CTM also on the device, new text and graphics state, empty path), then execution of all streams", 2)
+    rc = model.func(PI + "PDFPageInterpreter.render_contents")
+    calls_rc = ["".join(unparse(s_.value).split()) for s_ in rc.node.body if isinstance(s_, ast.Expr) and isinstance(s_.value, ast.Call) and (dotted(s_.value.func) or "").startswith("self.")]  # type: ignore[attr-defined]
+    r11.check(calls_rc == ["self.init_resources(resources)", "self.init_state(ctm)", "self.execute(list_value(streams))"], site(rc), rc.qualname, "init_resources(resources); init_state(ctm); execute(list_value(streams))", why=f"{calls_rc}")
+    ist = model.func(PI + "PDFPageInterpreter.init_state")
+    ws = {k: "".join(unparse(v[0].value).split()) if isinstance(v[0], (ast.Assign, ast.AnnAssign)) and getattr(v[0], "value", None) is not None else "?" for k, v in self_fields_written(ist).items()}
+    want_ws = {"gstack": "[]", "ctm": "ctm", "textstate": "PDFTextState()", "graphicstate": "PDFGraphicState()", "curpath": "[]", "argstack": "[]"}
+    bad_ws = {k: ws.get(k) for k, v in want_ws.items() if ws.get(k) != v}
+    r11.check(not bad_ws and "self.device.set_ctm(self.ctm)" in "".join(unparse(ist.node).split()), site(ist), ist.qualname, "init_state: gstack = [], ctm = ctm (also handed to the device), fresh PDFTextState / PDFGraphicState, curpath = [], argstack = []", why=f"differs: {bad_ws}: state of the previous page or of the invoking content would leak into this one")
 
 
 def _need(f: Optional[FuncInfo], op: str) -> FuncInfo:
